@@ -40,7 +40,7 @@ class RaisesSpec(object):
 class FnSpec(object):
     def __init__(self, qualname, args, returns=None, requires=(), ensures=(), raises=(), only_raises=True,
                  modifies=None, loops=None, float_mode='real', contract_at_calls=True, hints=None,
-                 inline=(), name=None, assumes=(), opaque_calls=(), cover=True, defs=(), old_defs=(), watch=()):
+                 inline=(), name=None, assumes=(), opaque_calls=(), cover=True, defs=(), old_defs=(), watch=(), call_lemmas=(), ghost_after=()):
         self.qualname = qualname
         self.name = name or qualname
         self.args = list(args.items()) if isinstance(args, dict) else list(args)
@@ -50,6 +50,11 @@ class FnSpec(object):
         self.defs = [(n, e) for n, e in defs]          # let-bindings evaluated in the post-state
         self.old_defs = [(n, e) for n, e in old_defs]  # let-bindings evaluated in the pre-state
         self.raises = list(raises)
+        self.call_lemmas = list(call_lemmas)   # spec expressions evaluated after every contract call (old = pre-call
+        # state): the lemma instances they generate between the two states are assumed (the lemmas are proved)
+        # ghost code: (statement text, ghost statements) executed right after every statement whose unparsed
+        # text equals the first component (also inside inlined callees); may only assign ghost fields / locals
+        self.ghost_after = [(a, ast.parse(b).body) for a, b in ghost_after]
         self.watch = list(watch)       # spec expressions (entry state) evaluated in counter-models for replay
         self.only_raises = only_raises
         self.modifies = modifies            # None = nothing;  list of family names / patterns
